@@ -51,7 +51,7 @@ def targetState (t : FullTarget) : String :=
 
 /-- returns the event log and clears it -/
 def targetLog (t : FullTarget) : FullTarget × String :=
-  ({ t with base := { t.base with log := [] } }, "ok (" ++ " ".intercalate (t.base.log.map renderEvent) ++ ")")
+  ({ t with base := { t.base with log := [] } }, "ok (" ++ " ".intercalate (t.base.events.map renderEvent) ++ ")")
 
 def targetFrame (t : FullTarget) : List Sexp → FullTarget × String
   | [b] =>
